@@ -1,14 +1,16 @@
 (* C02 — a valid j5s package compiles to exactly the protobuf contract it declares.
-   Only statements, closed by [exact lemma], with Print Assumptions beneath. *)
+   Only statements, closed by [exact lemma], with Print Assumptions beneath.
+   snake / camel / screaming are arbitrary functions in the general theorems (the theorems hold
+   for every name conversion); [compile] instantiates them with lib/Strcase.v. *)
 From Coq Require Import String List NArith Bool.
-From J5V.lib Require Import Outcome.
-From J5V.model Require Import J5sAst Desc J5sWalk J5sConvert.
+From J5V.lib Require Import Outcome Strcase.
+From J5V.model Require Import J5sAst Desc J5sWalk J5sLink J5sConvert J5sContract J5sValid J5sCorr.
 From J5V.gen Require ImportsGen.
-From J5V.proofs Require Import J5sProofs.
+From J5V.proofs Require Import J5sProofs J5sContractProofs J5sWitnessProofs.
 Import ListNotations.
 Local Open Scope N_scope.
 
-(* the tables of the Go source are the tables of the model (re-checked on every run) *)
+(* ---- the tables of the Go source are the tables of the model (re-checked on every run) *)
 Theorem C02_import_constants_agree : model_import_constants = ImportsGen.import_constants.
 Proof. exact import_constants_agree. Qed.
 Print Assumptions C02_import_constants_agree.
@@ -25,9 +27,76 @@ Theorem C02_ref_and_container_arms_agree : check_ref_arms = true.
 Proof. exact ref_arms_agree. Qed.
 Print Assumptions C02_ref_and_container_arms_agree.
 
-(* mapProperties: field number = 1-based declaration position after the implicit leading fields *)
+(* ---- mapProperties: field number = 1-based declaration position after the implicit leading fields *)
 Theorem C02_map_properties_number : forall virt decl i p,
   nth_error decl i = Some p ->
   nth_error (map_properties virt decl) (length virt + i) = Some (1 + N.of_nat (length virt + i), p).
 Proof. exact map_properties_number. Qed.
 Print Assumptions C02_map_properties_number.
+
+(* ---- the converter refines the contract, for every declaration at every nesting depth:
+   whenever a run of properties converts, the fields are exactly the declared ones (name,
+   JSON name, number = first + position, proto type, cardinality, optionality, oneof
+   membership), the nested messages / enums are exactly the inline types and map entries (by
+   name, in order), and every inline type satisfies the same contract one level down *)
+Theorem C02_properties_contract : forall snake camel screaming ps ev path io num r,
+  cv_props snake camel screaming ev path io num ps = Ok r ->
+  fields_ok snake io num (props_list ps) (pr_fields r) /\
+  map dm_name (pr_msgs r) = flat_map (prop_msg_names snake camel) (props_list ps) /\
+  map en_name (pr_enums r) = flat_map (prop_enum_names camel) (props_list ps) /\
+  (forall msgs enums, incl (pr_msgs r) msgs -> incl (pr_enums r) enums ->
+     props_inline_ok snake camel screaming ps msgs enums).
+Proof. intros snake camel screaming. exact (proj1 (proj2 (convert_refines snake camel screaming))). Qed.
+Print Assumptions C02_properties_contract.
+
+(* ---- enums: the declared options numbered in order after <PREFIX>UNSPECIFIED = 0 *)
+Theorem C02_enum_contract : forall screaming name e, enum_ok screaming name e (cv_enum screaming name e).
+Proof. intros screaming. exact (cv_enum_ok screaming screaming screaming). Qed.
+Print Assumptions C02_enum_contract.
+
+(* ---- well-formed declarations always convert (no error, no panic, no fuel) *)
+Theorem C02_properties_convert : forall snake camel screaming ev ps io,
+  wf_props snake camel ev io ps = true ->
+  forall path num, exists r, cv_props snake camel screaming ev path io num ps = Ok r.
+Proof. intros snake camel screaming ev. exact (proj1 (proj2 (convert_total snake camel screaming ev))). Qed.
+Print Assumptions C02_properties_convert.
+
+(* ---- the property at full strength, and its refutation by the faithful model *)
+Definition C02_full_statement : Prop :=
+  forall bd pkg, valid bd = true -> (exists f, In (BJ f) bd /\ j5s_pkg f = pkg) ->
+    exists D, compile bd pkg = Ok D /\ package_contract to_snake to_camel to_screaming_snake bd pkg D.
+
+(* `object Foo { field foo object { field y string } }` is valid and is rejected: the inline type
+   is referred to by the relative name Foo.Foo, which the linker resolves inside foo.v1.Foo.Foo *)
+Theorem C02_inline_named_like_parent_refuted :
+  valid w_named_like_parent = true /\
+  compile w_named_like_parent (b "foo.v1") = Err "unknown type: resolved to a name which is not defined".
+Proof. exact named_like_parent_rejected. Qed.
+Print Assumptions C02_inline_named_like_parent_refuted.
+
+(* ... and the silent form: a valid package compiles, but a field's type is not the declared one *)
+Theorem C02_inline_captured_refuted :
+  valid w_captured = true /\
+  exists D, compile w_captured (b "foo.v1") = Ok D /\
+            first_field_tname D = b ".foo.v1.Foo.Foo.X" /\
+            first_field_tname D <> abs_name (b "foo.v1") [b "Foo"; b "X"].
+Proof. exact captured_silently. Qed.
+Print Assumptions C02_inline_captured_refuted.
+
+(* non-vacuity: a package with nesting, a map and an enum is valid, compiles, and its first
+   message has the declared fields *)
+Example C02_example :
+  let bd := [BJ (mkJfile foo_v1 (b "a") []
+     [EObject (b "Holder")
+        (mkprops [Property (b "fooId") true false (FScalar (SKey KId62));
+                  Property (b "bar") false false (FObjInline [] (mkprops [sfield "x"]));
+                  Property (b "tags") false false (FMap (FScalar SString));
+                  Property (b "st") false true (FEnumInline (mkEnum [] [] [b "A"; b "B"]))]) NNil])] in
+  valid bd = true /\
+  exists D, compile bd (b "foo.v1") = Ok D /\
+    match D with
+    | [f] => map (fun m => map (fun x => (f_name x, f_num x)) (dm_fields m)) (fl_msgs f) =
+             [[(b "foo_id", 1); (b "bar", 2); (b "tags", 3); (b "st", 4)]]
+    | _ => False
+    end.
+Proof. cbv zeta. split; [vm_compute; reflexivity|]. eexists. split; vm_compute; reflexivity. Qed.
